@@ -49,7 +49,7 @@ func c14Package(rng *rand.Rand, idx int) (rcase, []c14op) {
 	g := &jgen{rng: rng, noNullAny: true, refAllPrims: c14RefAllPrims, aliasAllEmbeds: idx%2 == 1}
 	sp := &dialect.Spec{CompParams: map[string]dialect.Param{}, CompResponses: map[string]dialect.Response{}, CompHeaders: map[string]dialect.Header{}}
 	bf := baseForms[idx%len(baseForms)]
-	sp.ServerURL, sp.ServerVar = bf.Server, bf.Vars
+	sp.ServerURL, sp.ServerVar, sp.MoreServers = bf.Server, bf.Vars, bf.More
 	// security schemes
 	sp.Schemes = []dialect.Scheme{{Name: "bearer", Kind: "bearer"}, {Name: "key", Kind: "keyheader", Param: "X-Api-Key"}, {Name: "qkey", Kind: "keyquery", Param: "api_key"}}
 	if rng.Intn(2) == 0 {
